@@ -5,4 +5,4 @@ cd "$(dirname "$0")"
 export CARGO_NET_OFFLINE=true
 ( cd lean && lake build RosuModel rosudriver )
 [ -f harness/Cargo.lock ] || cp /repo/Cargo.lock harness/Cargo.lock
-( cd harness && cargo build --release --offline )
+( cd harness && cargo build --release --offline && cargo build --release --offline --features tracing --target-dir ../.build/harness-target-tracing )
